@@ -12,7 +12,7 @@ Init == v \in Variants /\ k \in Codes /\ c \in {x \in AllCfgs : Admitted(x)}
         /\ val \in {Str(s) : s \in Strs} \cup {Arr(<<Str(s), Str(t)>>) : s, t \in Strs} \cup {Obj(<<Str(s), Absent>>) : s \in Strs}
 Next == UNCHANGED <<v, k, c, val>>
 Routing == Carriable(v, k) => ImplResp(v, k) = <<v, Wire(v, k)>>
-Misrouted == (HasCode(v) /\ ~Carriable(v, k) /\ k <= 599) => ImplResp(v, k)[1] # v \/ ImplResp(v, k)[2] # k
+Misrouted == (HasCode(v) /\ ~Carriable(v, k) /\ k <= 599 /\ ~(k \in {204, 304})) => ImplResp(v, k)[1] # v \/ ImplResp(v, k)[2] # k
 \* a core value never falls under the ambiguity rule of the style table
 AsPS == CASE val.t = "str" -> [prim |-> val.s, arr |-> <<>>, obj |-> <<>>]
           [] val.t = "arr" -> [prim |-> <<>>, arr |-> [i \in 1..Len(val.v) |-> val.v[i].s], obj |-> <<>>]
